@@ -63,13 +63,17 @@ CLAIMS = {
     "C07": ("Verus with scheduler stand-ins: Delay/ObserveOn observers (both forms) schedule exactly one one-shot task per "
             "notification with the configured delay (None for observe_on) carrying (slot handle, payload), deliver nothing "
             "synchronously, register the handle; delay forwards an error at once; delay_subscription / subscribe_on are one "
-            "task on (source, observer); the _at builders store the time remaining until the instant.", "§4 C07",
+            "task on (source, observer); the _at builders store the time remaining until the instant; Scheduler::schedule awaits "
+            "a timer of exactly the requested delay before the task (rule R12: the async block read sequentially); the task "
+            "bodies of delay/observe_on deliver exactly their notification to the slot.  Kani (API level, recording "
+            "scheduler): delay_subscription / subscribe_on are one task with the configured delay.", "§4 C07",
             "'whatever order the scheduler runs its ready tasks in' is NOT provable (nothing re-sequences the tasks): order "
             "preservation assumes a FIFO scheduler (DESIGN §6); Instant/Duration are an assumed contract."),
     "C08": ("Verus: the task bodies interval_task, timer_task, item_task, result_task; interval/timer actual_subscribe "
             "schedule one repeating / one-shot task with the right period, delay and arguments; interval_at/timer_at compute "
             "the remaining time; from_future / from_future_result actual_subscribe (one undelayed task that hands the future's "
-            "value to item_task / result_task).  Kani (bounded): RepeatTask::poll on a virtual clock (consecutive sequence numbers, one fresh "
+            "value to item_task / result_task).  Kani: timer counts its delay from subscription however late it is subscribed "
+            "(virtual clock, recording scheduler; loop-free); (bounded:) RepeatTask::poll on a virtual clock (consecutive sequence numbers, one fresh "
             "timer per accepted tick, never runs on a pending timer, retires when the task declines), FutureTask::poll, "
             "from_stream / from_stream_result drivers over scripted streams.", "§4 C08",
             "timer accuracy (futures_time::sleep) and executor behaviour are assumed; poll loops are bounded (3 ticks / 3 steps)."),
@@ -92,7 +96,9 @@ CLAIMS = {
             "contract (single-input, two-input, buffers, merge_all, scheduler operators, create, finalize, collect, distinct, "
             "on_complete/on_error) creates fresh initial state from the operator's fields only and subscribes the source "
             "with it; of_fn/start call their closure once on subscription; Kani: defer calls its supplier exactly once, on "
-            "subscription.", "§4 C13",
+            "subscription; API-level clone independence (bounded, 3 items): a cloned pipeline subscribed twice gives the same "
+            "output / runs its finalizer / polls its future once per subscription (take, skip, take_while, scan, reduce, last, "
+            "distinct_until_changed, default_if_empty, finalize, from_future).", "§4 C13",
             "independence of clones is an ownership argument (no operator value holds a shared cell: a change that moves a "
             "cell into the operator value changes a field type and ends undecided); DistinctKeyOp::actual_subscribe (Verus ICE)."),
     "C14": ("Verus with an assumed channel/atomic contract: what the to_future / to_stream / complete_status observers put on "
